@@ -99,8 +99,39 @@ def _objects(sa):
     return r.get_objects()
 
 
+def _continue_case(case):
+    """two-phase run: performSpatiallyAdaptiv with (tol1, max1), then continue_adaptive_refinement with (tol2, max2); the second
+    phase must obey the stopping rule with ITS limits (first evaluation of the continuation = re-evaluation of the reached state)"""
+    c = case["config"]
+    strat, kind, norm = c["strategy"], c["integrand"], c["norm"]
+    key = {"strategy": strat.split("_")[0], "phase": "continuation"}
+    sa, eo, lm, op, ref, seen, nrm = _make(strat, kind, norm)
+    R1 = sa.performSpatiallyAdaptiv(lm[0], lm[1], eo, tol=c["tol"], max_evaluations=c["max_evaluations"], min_evaluations=1, print_output=False)
+    n1 = len(R1[6])
+    t2, m2 = c["then"]["tol"], c["then"]["max_evaluations"]
+    R2 = sa.continue_adaptive_refinement(tol=t2, max_evaluations=m2)
+    errs, pts = list(R2[5]), list(R2[6])
+    fails = []
+    if len(errs) != len(pts) or len(pts) <= n1:
+        fails.append(fail("array_lengths", "after the continuation: %d errors, %d point counts, %d before" % (len(errs), len(pts), n1), key))
+        return {"failures": fails, "canon": core.config_key(c), "outcome": (n1, len(pts)), "nontrivial": True, "evals": len(pts)}
+    stop = None
+    for k in range(n1, len(pts)):
+        if (errs[k] <= t2 and pts[k] >= 1) or (m2 is not None and pts[k] > m2):
+            stop = k
+            break
+    if stop != len(pts) - 1:
+        fails.append(fail("stop_index", "continuation with tol %r max %r after a run with tol %r max %r: model stops at evaluation %r, run ended at %d; errors %r points %r"
+                          % (t2, m2, c["tol"], c["max_evaluations"], stop, len(pts) - 1, errs[n1:], pts[n1:]), key))
+    if pts[n1] != pts[n1 - 1]:
+        fails.append(fail("reevaluation_point_count", "first evaluation of the continuation reports %d points, the state had %d" % (pts[n1], pts[n1 - 1]), key))
+    return {"failures": fails, "canon": core.config_key(c), "outcome": (n1, tuple(pts[n1:])), "nontrivial": len(pts) > n1 + 1, "evals": len(pts)}
+
+
 def run_case(case):
     c = case["config"]
+    if "then" in c:
+        return _continue_case(case)
     strat, kind, norm = c["strategy"], c["integrand"], c["norm"]
     tol, mn, mx = c["tol"], c["min_evaluations"], c["max_evaluations"]
     key = {"strategy": strat.split("_")[0]}
@@ -177,6 +208,7 @@ def main(ctx):
             for s in strategies for k in kinds for n in norms]
     ctx.determinism_probe(base[0])
     results = ctx.map(base, chunksize=1)
+    results0 = results
     cases = []
     for bc, res in zip(base, results):
         ctx.absorb(bc, res, group="baseline")
@@ -195,6 +227,17 @@ def main(ctx):
             else:
                 mx_eff = mx
             cases.append({"config": dict(c0, tol=tol, min_evaluations=mn, max_evaluations=mx_eff)})
+    # two-phase runs: every (first limits) x (continuation limits) pair from small menus, incl. continuation tolerances 0 and -1
+    ncont = 0
+    for bc, res in zip(base, results0):
+        nk = res.get("pts") or []
+        c0 = bc["config"]
+        if len(nk) < 3 or c0["norm"] != "inf" or c0["integrand"] not in ("peak", "vec") or c0["strategy"] not in ("dw", "es", "cell", "es_gl"):
+            continue
+        for tol1, mx1 in ((1e10, None), (1e-1, nk[1]), (-1, nk[0]), (0, nk[1])):
+            for tol2, mx2 in ((0, nk[2]), (-1, nk[2]), (1e-3, nk[-1]), (1e10, None), (0, nk[0])):
+                cases.append({"config": dict(c0, tol=tol1, max_evaluations=mx1, then={"tol": tol2, "max_evaluations": mx2})})
+                ncont += 1
     results = ctx.map(cases, chunksize=2)
     for case, res in zip(cases, results):
         ctx.absorb(case, res, group=case["config"]["strategy"])
@@ -211,7 +254,8 @@ def main(ctx):
                                         % (st, nm, other.get("pts"), r.get("pts")), {"strategy": st.split("_")[0]}),
                                    {"config": {"strategy": st, "integrand": "peak_tiny", "norm": nm, "tol": -1, "min_evaluations": 1,
                                                "max_evaluations": 90 if q else 150}})
-    ctx.bounds = {"strategies": strategies, "integrands": kinds, "norms": norms, "limit_cases": len(cases), "baselines": len(base)}
+    ctx.bounds = {"strategies": strategies, "integrands": kinds, "norms": norms, "limit_cases": len(cases) - ncont, "baselines": len(base),
+                  "two_phase_cases": ncont}
     return ctx.finish(
         rule="one case = one complete adaptive run on the real loop with the library's own estimator; the lattice is strategy x "
              "integrand x norm x tol{-1,0,1e-3,1e-1,1e10} x min_evaluations{1,n0,n0+1,n2} x max_evaluations{None,0,n0-1,n0,n1,n3} "
